@@ -1,5 +1,6 @@
 // Unit `heap` — C17 layer B: the interning table and the incremental collector of
 // crates/samlang-heap/src/lib.rs, function bodies extracted verbatim on every run.
+#![feature(allocator_api)]
 use vstd::prelude::*;
 use std::collections::{HashMap, HashSet};
 use std::ops::Deref;
@@ -14,6 +15,13 @@ global size_of usize == 8;
 #[verifier::external_body]
 #[derive(Clone, Copy)]
 struct PStrPrivateRepr { _p: u128 }
+
+#[verifier::external]
+impl PartialEq for PStrPrivateRepr { fn eq(&self, other: &Self) -> bool { unimplemented!() } }
+#[verifier::external]
+impl Eq for PStrPrivateRepr {}
+#[verifier::external]
+impl std::hash::Hash for PStrPrivateRepr { fn hash<H: std::hash::Hasher>(&self, state: &mut H) { unimplemented!() } }
 
 uninterp spec fn repr_heap_id(r: PStrPrivateRepr) -> Option<u32>;
 uninterp spec fn repr_inline(r: PStrPrivateRepr) -> Option<Seq<char>>;
@@ -85,17 +93,32 @@ broadcast axiom fn axiom_str_key_removed<V>(old_m: Map<&'static str, V>, new_m: 
   ensures #[trigger] vstd::std_specs::hash::borrowed_key_removed::<&'static str, V, str>(old_m, new_m, k) <==> new_m == old_m.remove(k);
 broadcast group group_str_keys { axiom_str_key_contains, axiom_str_key_maps, axiom_str_key_removed, axiom_str_of, axiom_str_ext }
 
+// Trusted std contract: `ToString for &mut String` (through Display) yields the same text.
+broadcast axiom fn axiom_mut_string_to_string(t: &&mut String, s: String)
+  ensures #[trigger] vstd::string::to_string_from_display_ensures::<&mut String>(t, s) <==> s@ == mut_ref_current(*t)@;
+
+// same for `&'static [PStr]` keys looked up with `&[PStr]`
+broadcast axiom fn axiom_slice_key_contains<T, V>(m: Map<&'static [T], V>, k: &[T])
+  ensures #[trigger] vstd::std_specs::hash::contains_borrowed_key::<&'static [T], V, [T]>(m, k) <==> m.contains_key(k);
+broadcast axiom fn axiom_slice_key_maps<T, V>(m: Map<&'static [T], V>, k: &[T], v: V)
+  ensures #[trigger] vstd::std_specs::hash::maps_borrowed_key_to_value::<&'static [T], V, [T]>(m, k, v) <==> m.contains_key(k) && m[k] == v;
+broadcast group group_slice_keys { axiom_slice_key_contains, axiom_slice_key_maps }
+
+#[verifier::external_body]
+fn vec_leak<T>(v: Vec<T>) -> (r: &'static [T]) ensures r@ == v@ { unimplemented!() }
+
 // R3 stubs: the exact unsafe / leaking / cfg expressions of the real code, with their
 // documented behaviour as contract.
 #[verifier::external_body]
 fn unsafe_extend_str_lifetime(key: &str) -> (r: &'static str) ensures r@ == key@ { unimplemented!() }
 #[verifier::external_body]
 fn cfg_test() -> bool { unimplemented!() }
+fn runtime_assert(b: bool) requires b {}
 #[verifier::external_body]
 fn box_leak_string(s: String) -> (r: &'static str) ensures r@ == s@ { unimplemented!() }
 
 //@extract crates/samlang-heap/src/lib.rs :: struct PStr
-//@attr #[derive(Clone, Copy)]
+//@attr #[derive(Clone, Copy, PartialEq, Eq, Hash)]
 //@end
 
 //@extract crates/samlang-heap/src/lib.rs :: struct ModuleReference
@@ -104,6 +127,18 @@ fn box_leak_string(s: String) -> (r: &'static str) ensures r@ == s@ { unimplemen
 
 //@extract crates/samlang-heap/src/lib.rs :: enum StringStoredInHeap
 //@end
+
+impl PStr {
+//@extract crates/samlang-heap/src/lib.rs :: impl PStr / fn create_inline_opt
+//@ret r
+//@replace .map(PStr) => .map(|r0: PStrPrivateRepr| -> (p0: PStr) ensures p0.0 == r0 { PStr(r0) }) ## R10: tuple-struct constructor used as a function value is eta-expanded (Verus does not accept constructors as fn values)
+//@contract
+    ensures match r {  // :inline_iff_short
+      Some(p) => fits_inline(s@) && repr_inline(p.0) == Some(s@),
+      None => !fits_inline(s@),
+    }
+//@end
+}
 
 impl StringStoredInHeap {
 //@extract crates/samlang-heap/src/lib.rs :: impl StringStoredInHeap / fn deallocated
@@ -189,19 +224,44 @@ impl Heap {
     }
   }
 
-  /// The representation invariant of the interning table.
-  spec fn wf(&self) -> bool {
+  /// The representation invariant of the interning table: string side ...
+  spec fn wf_strings(&self) -> bool {
     &&& self.sweep_index <= self.str_pointer_table.len()
     &&& self.str_pointer_table.len() <= 0xffff_ffff
     &&& forall|k: &'static str| #[trigger] self.interned_static_str@.contains_key(k) ==> self.static_key_ok(k)
     &&& forall|k: &'static str| #[trigger] self.interned_string@.contains_key(k) ==> self.temp_key_ok(k)
     &&& forall|i: int| 0 <= i < self.len() && #[trigger] self.is_temp(i) ==> self.temp_slot_ok(i)
     &&& forall|i: int| 0 <= i < self.len() && #[trigger] self.is_perm(i) ==> self.perm_slot_ok(i)
+  }
+  /// ... and module-reference side
+  spec fn wf_modules(&self) -> bool {
     &&& forall|m: int, j: int| 0 <= m < self.module_reference_pointer_table.len()
           && 0 <= j < self.module_reference_pointer_table[m]@.len()
           ==> self.part_ok(#[trigger] self.module_reference_pointer_table[m]@[j])
     &&& forall|k: &'static [PStr]| #[trigger] self.interned_module_reference@.contains_key(k)
           ==> self.interned_module_reference@[k].0 < self.module_reference_pointer_table.len()
+              && self.module_reference_pointer_table[self.interned_module_reference@[k].0 as int]@ == k@
+  }
+  spec fn wf(&self) -> bool { self.wf_strings() && self.wf_modules() }
+
+  /// wf_strings only reads the string table, the two string maps and the cursor
+  proof fn lemma_wf_strings_same_fields(&self, other: &Heap)
+    requires other.wf_strings(), self.str_pointer_table == other.str_pointer_table, self.sweep_index == other.sweep_index,
+      self.interned_string == other.interned_string, self.interned_static_str == other.interned_static_str,
+    ensures self.wf_strings()
+  {
+    assert forall|i: int| 0 <= i < self.len() && #[trigger] self.is_temp(i) implies self.temp_slot_ok(i) by {
+      assert(other.is_temp(i)); assert(other.temp_slot_ok(i));
+    }
+    assert forall|i: int| 0 <= i < self.len() && #[trigger] self.is_perm(i) implies self.perm_slot_ok(i) by {
+      assert(other.is_perm(i)); assert(other.perm_slot_ok(i));
+    }
+    assert forall|k: &'static str| #[trigger] self.interned_static_str@.contains_key(k) implies self.static_key_ok(k) by {
+      assert(other.static_key_ok(k));
+    }
+    assert forall|k: &'static str| #[trigger] self.interned_string@.contains_key(k) implies self.temp_key_ok(k) by {
+      assert(other.temp_key_ok(k));
+    }
   }
 
   /// the gate: sweeping is disabled while some module still has to be marked
@@ -240,6 +300,28 @@ impl Heap {
     &&& forall|i: int| 0 <= i < old.len() && old.marked(i) ==> #[trigger] self.marked(i) || self.is_perm(i)
     &&& forall|i: int| 0 <= i < old.len() && #[trigger] self.is_temp(i) ==> old.is_temp(i)
   }
+
+  proof fn lemma_preserves_trans(&self, mid: &Heap, old: &Heap)
+    requires self.preserves(mid), mid.preserves(old)
+    ensures self.preserves(old)
+  {
+    assert forall|i: int| 0 <= i < old.len() implies #[trigger] self.content(i) == old.content(i) by {
+      assert(mid.content(i) == old.content(i));
+    }
+    assert forall|i: int| 0 <= i < old.len() && old.is_perm(i) implies #[trigger] self.is_perm(i) by {
+      assert(mid.is_perm(i));
+    }
+    assert forall|i: int| 0 <= i < old.len() && old.marked(i) implies #[trigger] self.marked(i) || self.is_perm(i) by {
+      assert(mid.marked(i) || mid.is_perm(i));
+      if mid.is_perm(i) { assert(self.is_perm(i)); }
+    }
+    assert forall|i: int| 0 <= i < old.len() && #[trigger] self.is_temp(i) implies old.is_temp(i) by {
+      assert(mid.is_temp(i));
+    }
+  }
+  proof fn lemma_preserves_refl(&self)
+    ensures self.preserves(self)
+  {}
 
   /// two distinct live, interned (non-inline) slots never hold the same text
   proof fn lemma_contents_unique(&self, i: int, j: int)
@@ -465,6 +547,209 @@ impl Heap {
         assert(o.part_ok(o.module_reference_pointer_table[m]@[j]));
       }
     }
+//@end
+
+//@extract crates/samlang-heap/src/lib.rs :: impl Heap / fn alloc_str_internal
+//@ret r
+//@contract
+    requires
+      old(self).wf(),
+      old(self).len() < 0xffff_ffff,
+      vstd::std_specs::hash::obeys_key_model::<&'static str>(),
+    ensures
+      final(self).wf(),                                                             // :wf_preserved
+      final(self).live(r) && final(self).read(r) == str@,                           // :reads_back_exact_string
+      repr_heap_id(r.0) is None <==> fits_inline(str@),                             // :inline_iff_short
+      repr_heap_id(r.0) is Some ==> final(self).is_perm(repr_heap_id(r.0)->Some_0 as int),  // :result_is_permanent
+      final(self).preserves(old(self)),                                             // :frame_nothing_readable_changes
+      final(self).module_reference_pointer_table == old(self).module_reference_pointer_table,   // :module_table_unchanged
+      final(self).unmarked_module_references == old(self).unmarked_module_references,           // :gate_unchanged
+//@before if let Some(p) = PStr::create_inline_opt(str) {
+    proof { broadcast use repr_cases, group_str_keys; lemma_str_of_view(str); }
+//@after#1 self.interned_static_str.insert(str, id);
+      proof {
+        let o = old(self);
+        assert(o.temp_key_ok(str));
+        assert forall|i: int| 0 <= i < self.len() && #[trigger] self.is_temp(i) implies self.temp_slot_ok(i) by {
+          assert(o.is_temp(i)); assert(o.temp_slot_ok(i));
+        }
+        assert forall|i: int| 0 <= i < self.len() && #[trigger] self.is_perm(i) implies self.perm_slot_ok(i) by {
+          if i != id as int { assert(o.is_perm(i)); assert(o.perm_slot_ok(i)); }
+        }
+        assert forall|k: &'static str| #[trigger] self.interned_static_str@.contains_key(k) implies self.static_key_ok(k) by {
+          if k != str { assert(o.static_key_ok(k)); }
+        }
+        assert forall|k: &'static str| #[trigger] self.interned_string@.contains_key(k) implies self.temp_key_ok(k) by {
+          assert(o.temp_key_ok(k));
+          if o.interned_string@[k] == id { lemma_str_of_view(k); }
+        }
+        assert forall|m: int, j: int| 0 <= m < self.module_reference_pointer_table.len()
+            && 0 <= j < self.module_reference_pointer_table[m]@.len()
+            implies self.part_ok(#[trigger] self.module_reference_pointer_table[m]@[j]) by {
+          assert(o.part_ok(o.module_reference_pointer_table[m]@[j]));
+        }
+      }
+//@after self.str_pointer_table.push(StringStoredInHeap::Permanent(str));
+      proof {
+        let o = old(self);
+        assert(self.is_perm(id as int));
+        assert forall|i: int| 0 <= i < self.len() && #[trigger] self.is_temp(i) implies self.temp_slot_ok(i) by {
+          assert(o.is_temp(i)); assert(o.temp_slot_ok(i));
+        }
+        assert forall|i: int| 0 <= i < self.len() && #[trigger] self.is_perm(i) implies self.perm_slot_ok(i) by {
+          if i != id as int { assert(o.is_perm(i)); assert(o.perm_slot_ok(i)); }
+        }
+        assert forall|k: &'static str| #[trigger] self.interned_static_str@.contains_key(k) implies self.static_key_ok(k) by {
+          if k != str { assert(o.static_key_ok(k)); }
+        }
+        assert forall|k: &'static str| #[trigger] self.interned_string@.contains_key(k) implies self.temp_key_ok(k) by {
+          assert(o.temp_key_ok(k));
+        }
+        assert forall|m: int, j: int| 0 <= m < self.module_reference_pointer_table.len()
+            && 0 <= j < self.module_reference_pointer_table[m]@.len()
+            implies self.part_ok(#[trigger] self.module_reference_pointer_table[m]@[j]) by {
+          assert(o.part_ok(o.module_reference_pointer_table[m]@[j]));
+        }
+      }
+//@end
+
+  // R7: `Box::leak(Box::new(string))` — trusted leaf: returns a `&'static str` with the same text.
+  #[verifier::external_body]
+  fn make_string_static(string: String) -> (r: &'static str) ensures r@ == string@ { unimplemented!() }
+
+//@extract crates/samlang-heap/src/lib.rs :: impl Heap / fn make_string_permanent
+//@replace debug_assert_eq!(removed, id); => runtime_assert(removed == id); ## R3: the debug assertion becomes a call whose precondition is the asserted condition (so it is proved never to fire)
+//@contract
+    requires
+      old(self).wf(),
+      repr_heap_id(p_str.0) is Some ==> (repr_heap_id(p_str.0)->Some_0 as int) < old(self).len(),
+      vstd::std_specs::hash::obeys_key_model::<&'static str>(),
+    ensures
+      final(self).wf(),                                                             // :wf_preserved
+      final(self).len() == old(self).len(),                                         // :len_unchanged
+      final(self).preserves(old(self)),                                             // :frame_nothing_readable_changes
+      old(self).live(p_str) ==> final(self).part_ok(p_str),                         // :live_handle_becomes_permanent
+      forall|i: int| 0 <= i < old(self).len() && repr_heap_id(p_str.0) != Some(i as u32)
+        ==> final(self).str_pointer_table[i] == old(self).str_pointer_table[i],      // :other_slots_identical
+      final(self).module_reference_pointer_table == old(self).module_reference_pointer_table,   // :module_table_unchanged
+      final(self).interned_module_reference == old(self).interned_module_reference,             // :module_map_unchanged
+      final(self).unmarked_module_references == old(self).unmarked_module_references,           // :gate_unchanged
+//@before if let Some(id) = p_str.0.as_heap_id() {
+    proof { broadcast use repr_cases, group_str_keys, axiom_mut_string_to_string; }
+//@after#1 StringStoredInHeap::Permanent(_) | StringStoredInHeap::Deallocated(_) => {
+          proof {
+            assert(self.str_pointer_table@ =~= old(self).str_pointer_table@);
+            assert forall|i: int| 0 <= i < old(self).len() implies self.same_shape(old(self), i) by {}
+            self.lemma_wf_transfer(old(self));
+          }
+//@before let stored_string = &mut self.str_pointer_table[id as usize];
+      proof { if self.is_temp(id as int) { assert(self.temp_slot_ok(id as int)); } }
+      let ghost txt = temp_text(self.str_pointer_table[id as int]);
+//@after self.interned_static_str.insert(static_str, id);
+          proof {
+            let o = old(self);
+            lemma_str_of_view(static_str);
+            assert(static_str@ == txt);
+            assert(static_str == str_of(txt));
+            assert(self.is_perm(id as int));
+            assert forall|i: int| 0 <= i < self.len() && #[trigger] self.is_temp(i) implies self.temp_slot_ok(i) by {
+              assert(o.is_temp(i)); assert(o.temp_slot_ok(i));
+            }
+            assert forall|i: int| 0 <= i < self.len() && #[trigger] self.is_perm(i) implies self.perm_slot_ok(i) by {
+              if i != id as int { assert(o.is_perm(i)); assert(o.perm_slot_ok(i)); }
+            }
+            assert forall|k: &'static str| #[trigger] self.interned_static_str@.contains_key(k) implies self.static_key_ok(k) by {
+              if k != static_str { assert(o.static_key_ok(k)); }
+            }
+            assert forall|k: &'static str| #[trigger] self.interned_string@.contains_key(k) implies self.temp_key_ok(k) by {
+              assert(o.temp_key_ok(k));
+              if o.interned_string@[k] == id { lemma_str_of_view(k); }
+            }
+            assert forall|m: int, j: int| 0 <= m < self.module_reference_pointer_table.len()
+                && 0 <= j < self.module_reference_pointer_table[m]@.len()
+                implies self.part_ok(#[trigger] self.module_reference_pointer_table[m]@[j]) by {
+              assert(o.part_ok(o.module_reference_pointer_table[m]@[j]));
+            }
+          }
+//@end
+
+//@extract crates/samlang-heap/src/lib.rs :: impl Heap / fn alloc_module_reference
+//@ret r
+//@replace Vec::leak(parts) => vec_leak(parts) ## R3: leaking the vector yields a 'static slice with the same elements
+//@contract
+    requires
+      old(self).wf(),
+      forall|j: int| 0 <= j < parts@.len() ==> old(self).live(#[trigger] parts@[j]),
+      old(self).module_reference_pointer_table.len() < usize::MAX,
+      vstd::std_specs::hash::obeys_key_model::<&'static str>(),
+      vstd::std_specs::hash::obeys_key_model::<&'static [PStr]>(),
+    ensures
+      final(self).wf(),                                                             // :wf_preserved
+      final(self).len() == old(self).len(),                                         // :len_unchanged
+      final(self).preserves(old(self)),                                             // :frame_nothing_readable_changes
+      r.0 < final(self).module_reference_pointer_table.len(),                       // :result_in_table
+      final(self).module_reference_pointer_table[r.0 as int]@ == parts@,            // :result_denotes_parts
+      forall|j: int| 0 <= j < parts@.len() ==> final(self).part_ok(#[trigger] parts@[j]),   // :every_part_permanent
+      forall|m: int| 0 <= m < old(self).module_reference_pointer_table.len()
+        ==> final(self).module_reference_pointer_table[m] == old(self).module_reference_pointer_table[m],  // :existing_module_refs_unchanged
+      final(self).unmarked_module_references == old(self).unmarked_module_references,           // :gate_unchanged
+//@before if let Some(id) = self.interned_module_reference.get(parts.deref()) {
+    proof { broadcast use group_slice_keys; self.lemma_preserves_refl(); }
+//@loop 0 iter=it
+        invariant
+          self.wf(),
+          self.len() == old(self).len(),
+          self.preserves(old(self)),
+          it.seq().len() == parts@.len(),
+          forall|j: int| 0 <= j < parts@.len() ==> *(#[trigger] it.seq()[j]) == parts@[j],
+          forall|j: int| 0 <= j < parts@.len() ==> old(self).live(#[trigger] parts@[j]),
+          forall|j: int| 0 <= j < it.index() ==> self.part_ok(#[trigger] parts@[j]),
+          self.module_reference_pointer_table == old(self).module_reference_pointer_table,
+          self.interned_module_reference == old(self).interned_module_reference,
+          self.unmarked_module_references == old(self).unmarked_module_references,
+          vstd::std_specs::hash::obeys_key_model::<&'static str>(),
+//@before self.make_string_permanent(*p);
+        let ghost mid = *self;
+        let ghost idx = it.index() as int;
+        proof {
+          assert(*p == parts@[idx]);
+          assert(old(self).live(parts@[idx]));
+          assert(self.live(*p)) by { if repr_heap_id(p.0) is Some { assert(self.content(repr_heap_id(p.0)->Some_0 as int) == old(self).content(repr_heap_id(p.0)->Some_0 as int)); } }
+        }
+//@after self.make_string_permanent(*p);
+        proof {
+          self.lemma_preserves_trans(&mid, old(self));
+          assert forall|j: int| 0 <= j < idx + 1 implies self.part_ok(#[trigger] parts@[j]) by {
+            if j < idx {
+              assert(mid.part_ok(parts@[j]));
+              if repr_heap_id(parts@[j].0) is Some { assert(self.is_perm(repr_heap_id(parts@[j].0)->Some_0 as int)); }
+            }
+          }
+        }
+//@before let leaked_parts = Vec::leak(parts);
+      let ghost after_loop = *self;
+//@after self.module_reference_pointer_table.push(leaked_parts);
+      proof {
+        let o = old(self);
+        broadcast use group_slice_keys;
+        self.lemma_wf_strings_same_fields(&after_loop);
+        assert forall|i: int| 0 <= i < o.len() implies #[trigger] self.content(i) == o.content(i) by { assert(after_loop.content(i) == o.content(i)); }
+        assert forall|i: int| 0 <= i < o.len() && o.is_perm(i) implies #[trigger] self.is_perm(i) by { assert(after_loop.is_perm(i)); }
+        assert forall|i: int| 0 <= i < o.len() && o.marked(i) implies #[trigger] self.marked(i) || self.is_perm(i) by { assert(after_loop.marked(i) || after_loop.is_perm(i)); }
+        assert forall|i: int| 0 <= i < o.len() && #[trigger] self.is_temp(i) implies o.is_temp(i) by { assert(after_loop.is_temp(i)); }
+        assert forall|m: int, j: int| 0 <= m < self.module_reference_pointer_table.len()
+            && 0 <= j < self.module_reference_pointer_table[m]@.len()
+            implies self.part_ok(#[trigger] self.module_reference_pointer_table[m]@[j]) by {
+          if m < o.module_reference_pointer_table.len() {
+            let p = o.module_reference_pointer_table[m]@[j];
+            assert(o.part_ok(p));
+            if repr_heap_id(p.0) is Some { assert(after_loop.is_perm(repr_heap_id(p.0)->Some_0 as int)); assert(self.is_perm(repr_heap_id(p.0)->Some_0 as int)); }
+          } else {
+            assert(self.module_reference_pointer_table[m]@[j] == parts@[j]);
+            assert(after_loop.part_ok(parts@[j]));
+          }
+        }
+      }
 //@end
 }
 
